@@ -37,11 +37,31 @@ pub enum Req {
 }
 
 #[derive(Serialize, Deserialize, Clone, Debug)]
-pub struct Case {
+pub struct Seq {
     pub file: bool,
     /// documents imported before the history starts (bit mask over 3 slots)
     pub preimport: u8,
     pub reqs: Vec<Req>,
+}
+
+/// Requests of the concurrent variant: one document, no subscribers.
+#[derive(Serialize, Deserialize, Clone, Debug, PartialEq)]
+pub enum CReq {
+    Open(bool),
+    Close,
+    SetSync(bool),
+    InsertLocal(u8, u8),
+    InsertRemote(u8, u8),
+    DeletePrefix(u8),
+    GetExact(u8),
+    GetState,
+}
+
+#[derive(Serialize, Deserialize, Clone, Debug)]
+pub enum Case {
+    Sequential(Seq),
+    /// a sequential prefix, then two clients issue their requests concurrently from two threads
+    Concurrent { pre: Vec<CReq>, a: Vec<CReq>, b: Vec<CReq> },
 }
 
 #[derive(Clone, Debug, Default)]
@@ -76,12 +96,15 @@ impl Prop for C14 {
          subscribers, entries} per document predicts the success class of every reply, close's boolean, get_state, and the contents; \
          a failed request must leave everything unchanged; the store handed back by shutdown must contain every acknowledged write; \
          non-trivial = some document is opened >= 2 times and closed >= 2 times with requests in between, a request hits a closed \
-         document, and sync is toggled; distinct by serialised case"
+         document, and sync is toggled. Concurrent variant: after a sequential prefix two clients issue <= 5 requests each from two \
+         OS threads; the recorded invoke/response history must be linearizable with respect to the same model (Wing-Gong search over \
+         <= 10 operations), whatever interleaving the OS produced; non-trivial there = the two clients' operations overlapped in time \
+         and at least one write was acknowledged; distinct by serialised case"
             .into()
     }
 
     fn cases(tier: Tier) -> u64 {
-        tier.pick(12_000, 150_000)
+        tier.pick(40_000, 400_000)
     }
 
     fn strategy(tier: Tier) -> BoxedStrategy<Case> {
@@ -105,15 +128,33 @@ impl Prop for C14 {
             1 => d().prop_map(Req::Drop),
             1 => Just(Req::Flush),
         ];
-        (prop::bool::weighted(0.2), prop_oneof![3 => Just(7u8), 1 => 0u8..8], vec(req, 1..=max))
-            .prop_map(|(file, preimport, reqs)| Case { file, preimport, reqs })
-            .boxed()
+        let seq = (prop::bool::weighted(0.2), prop_oneof![3 => Just(7u8), 1 => 0u8..8], vec(req, 1..=max))
+            .prop_map(|(file, preimport, reqs)| Case::Sequential(Seq { file, preimport, reqs }));
+        let creq = || {
+            prop_oneof![
+                3 => any::<bool>().prop_map(CReq::Open),
+                3 => Just(CReq::Close),
+                2 => any::<bool>().prop_map(CReq::SetSync),
+                3 => (0u8..3, 1u8..4).prop_map(|(k, c)| CReq::InsertLocal(k, c)),
+                2 => (0u8..3, 0u8..4).prop_map(|(k, c)| CReq::InsertRemote(k, c)),
+                1 => (0u8..3).prop_map(CReq::DeletePrefix),
+                2 => (0u8..3).prop_map(CReq::GetExact),
+                2 => Just(CReq::GetState),
+            ]
+        };
+        let conc = (vec(creq(), 0..=3), vec(creq(), 1..=5), vec(creq(), 1..=5)).prop_map(|(pre, a, b)| Case::Concurrent { pre, a, b });
+        prop_oneof![3 => seq, 1 => conc].boxed()
     }
 
     fn check(ctx: &mut Ctx, c: &Case) -> Outcome {
         let mut o = Outcome::default();
-        o.class(if c.file { "file" } else { "memory" });
-        let r = run(ctx, c, &mut o);
+        let r = match c {
+            Case::Sequential(c) => {
+                o.class(if c.file { "file" } else { "memory" });
+                run(ctx, c, &mut o)
+            }
+            Case::Concurrent { pre, a, b } => concurrent(ctx, pre, a, b, &mut o),
+        };
         verif::set_clock(None);
         if let Err(e) = r {
             o.fail("C14/harness-error", e);
@@ -147,7 +188,7 @@ async fn observe(h: &SyncHandle, ids: &[NamespaceId], docs: &[DocModel], o: &mut
     Ok(())
 }
 
-fn run(ctx: &mut Ctx, c: &Case, o: &mut Outcome) -> R<()> {
+fn run(ctx: &mut Ctx, c: &Seq, o: &mut Outcome) -> R<()> {
     let st = AnyStore::new(ctx, c.file)?;
     let AnyStore { store, path } = st;
     let ids: Vec<NamespaceId> = (0..3).map(|d| namespace(d).id()).collect();
@@ -483,4 +524,257 @@ fn run(ctx: &mut Ctx, c: &Case, o: &mut Outcome) -> R<()> {
         let _ = std::fs::remove_file(p);
     }
     res
+}
+
+
+// ------------------------------------------------------------------------------------------------
+// concurrent variant: linearizability of the recorded history w.r.t. the model
+
+#[derive(Clone, Debug, PartialEq)]
+enum Reply {
+    Ok,
+    Err,
+    Bool(bool),
+    State(usize, bool),
+    Entry(Option<SignedEntry>),
+    Count(usize),
+}
+
+#[derive(Clone, Debug, Default)]
+struct Mini {
+    handles: usize,
+    sync: bool,
+    entries: Model,
+}
+
+const CNOW: u64 = T0 + 3;
+
+fn centry(local: bool, k: u8, c: u8) -> SignedEntry {
+    sign(namespace(0), &ESpec { a: if local { 0 } else { 1 }, k: key(k), t: if local { CNOW } else { T0 + 1 + (c as u64 % 3) }, c })
+}
+
+/// The model's sequential semantics of one request.
+fn mini_step(m: &mut Mini, r: &CReq) -> Reply {
+    match r {
+        CReq::Open(sync) => {
+            m.handles += 1;
+            m.sync = m.sync || *sync;
+            Reply::Ok
+        }
+        CReq::Close => {
+            if m.handles > 0 {
+                m.handles -= 1;
+                if m.handles == 0 {
+                    m.sync = false;
+                }
+            }
+            Reply::Bool(m.handles == 0)
+        }
+        CReq::SetSync(s) => {
+            if m.handles == 0 {
+                Reply::Err
+            } else {
+                m.sync = *s;
+                Reply::Ok
+            }
+        }
+        CReq::InsertLocal(k, c) => {
+            let e = centry(true, *k, *c);
+            if m.handles > 0 && m.entries.apply(&e).is_some() {
+                Reply::Ok
+            } else {
+                Reply::Err
+            }
+        }
+        CReq::InsertRemote(k, c) => {
+            let e = centry(false, *k, *c);
+            if m.handles > 0 && m.sync && m.entries.apply(&e).is_some() {
+                Reply::Ok
+            } else {
+                Reply::Err
+            }
+        }
+        CReq::DeletePrefix(k) => {
+            let e = sign(namespace(0), &ESpec { a: 0, k: key(*k), t: CNOW, c: 0 });
+            if m.handles == 0 {
+                return Reply::Err;
+            }
+            match m.entries.apply(&e) {
+                Some(n) => Reply::Count(n),
+                None => Reply::Err,
+            }
+        }
+        CReq::GetExact(k) => {
+            if m.handles == 0 {
+                Reply::Err
+            } else {
+                Reply::Entry(m.entries.m.get(&(author(0).id().to_bytes(), key(*k))).cloned())
+            }
+        }
+        CReq::GetState => {
+            if m.handles == 0 {
+                Reply::Err
+            } else {
+                Reply::State(m.handles, m.sync)
+            }
+        }
+    }
+}
+
+async fn real_step(h: &SyncHandle, ns: NamespaceId, r: &CReq) -> Reply {
+    match r {
+        CReq::Open(sync) => {
+            let opts = if *sync { OpenOpts::default().sync() } else { OpenOpts::default() };
+            if h.open(ns, opts).await.is_ok() {
+                Reply::Ok
+            } else {
+                Reply::Err
+            }
+        }
+        CReq::Close => match h.close(ns).await {
+            Ok(b) => Reply::Bool(b),
+            Err(_) => Reply::Err,
+        },
+        CReq::SetSync(s) => {
+            if h.set_sync(ns, *s).await.is_ok() {
+                Reply::Ok
+            } else {
+                Reply::Err
+            }
+        }
+        CReq::InsertLocal(k, c) => {
+            let e = centry(true, *k, *c);
+            if h.insert_local(ns, author(0).id(), key(*k).into(), e.content_hash(), e.content_len()).await.is_ok() {
+                Reply::Ok
+            } else {
+                Reply::Err
+            }
+        }
+        CReq::InsertRemote(k, c) => {
+            if h.insert_remote(ns, centry(false, *k, *c), [2u8; 32], ContentStatus::Missing).await.is_ok() {
+                Reply::Ok
+            } else {
+                Reply::Err
+            }
+        }
+        CReq::DeletePrefix(k) => match h.delete_prefix(ns, author(0).id(), key(*k).into()).await {
+            Ok(n) => Reply::Count(n),
+            Err(_) => Reply::Err,
+        },
+        CReq::GetExact(k) => match h.get_exact(ns, author(0).id(), key(*k).into(), true).await {
+            Ok(e) => Reply::Entry(e),
+            Err(_) => Reply::Err,
+        },
+        CReq::GetState => match h.get_state(ns).await {
+            Ok(s) => Reply::State(s.handles, s.sync),
+            Err(_) => Reply::Err,
+        },
+    }
+}
+
+#[derive(Clone, Debug)]
+struct Rec {
+    req: CReq,
+    reply: Reply,
+    invoke: u64,
+    response: u64,
+}
+
+/// Wing-Gong: is there a total order, consistent with real time, under which the model gives the observed replies?
+fn linearizable(start: &Mini, ops: &[Rec], done: &mut Vec<bool>, model: &Mini, final_entries: &[SignedEntry]) -> bool {
+    if done.iter().all(|d| *d) {
+        return model.entries.dump() == final_entries;
+    }
+    let _ = start;
+    // candidates: pending operations that no other pending operation precedes in real time
+    let min_response = ops.iter().zip(done.iter()).filter(|(_, d)| !**d).map(|(o, _)| o.response).min().unwrap();
+    for i in 0..ops.len() {
+        if done[i] || ops[i].invoke > min_response {
+            continue;
+        }
+        let mut m = model.clone();
+        if mini_step(&mut m, &ops[i].req) == ops[i].reply {
+            done[i] = true;
+            if linearizable(start, ops, done, &m, final_entries) {
+                done[i] = false;
+                return true;
+            }
+            done[i] = false;
+        }
+    }
+    false
+}
+
+fn concurrent(ctx: &mut Ctx, pre: &[CReq], a: &[CReq], b: &[CReq], o: &mut Outcome) -> R<()> {
+    use std::sync::atomic::{AtomicU64, Ordering};
+    use std::sync::Arc;
+    o.class("concurrent");
+    verif::set_clock(Some(CNOW));
+    let ns = namespace(0).id();
+    let h = act::spawn(Store::memory());
+    let mut model = Mini::default();
+    ctx.rt.block_on(async {
+        es(h.import_author(author(0).clone()).await)?;
+        es(h.import_namespace(namespace(0).clone().into()).await)?;
+        for r in pre {
+            let got = real_step(&h, ns, r).await;
+            let want = mini_step(&mut model, r);
+            if got != want {
+                o.fail("C14/concurrent-prefix", format!("sequential prefix: {:?} replied {:?}, model {:?}", r, got, want));
+                return Ok::<(), String>(());
+            }
+        }
+        Ok(())
+    })?;
+    if o.failed() {
+        return Ok(());
+    }
+    let clock = Arc::new(AtomicU64::new(1));
+    let run_client = |reqs: Vec<CReq>, h: SyncHandle, clock: Arc<AtomicU64>| {
+        std::thread::spawn(move || {
+            let rt = tokio::runtime::Builder::new_current_thread().enable_all().build().expect("rt");
+            rt.block_on(async move {
+                let mut recs = vec![];
+                for r in reqs {
+                    let invoke = clock.fetch_add(1, Ordering::SeqCst);
+                    let reply = real_step(&h, ns, &r).await;
+                    let response = clock.fetch_add(1, Ordering::SeqCst);
+                    recs.push(Rec { req: r, reply, invoke, response });
+                }
+                recs
+            })
+        })
+    };
+    let ta = run_client(a.to_vec(), h.clone(), clock.clone());
+    let tb = run_client(b.to_vec(), h.clone(), clock.clone());
+    let ra = ta.join().map_err(|_| "client A panicked".to_string())?;
+    let rb = tb.join().map_err(|_| "client B panicked".to_string())?;
+    let overlapped = ra.iter().any(|x| rb.iter().any(|y| x.invoke < y.response && y.invoke < x.response));
+    let acked_write = ra.iter().chain(rb.iter()).any(|r| matches!(r.req, CReq::InsertLocal(..) | CReq::InsertRemote(..) | CReq::DeletePrefix(..)) && !matches!(r.reply, Reply::Err));
+    if overlapped {
+        o.class("concurrent/operations-overlapped");
+    }
+    if overlapped && acked_write {
+        o.nontrivial = true;
+    }
+    // final contents from the store handed back by shutdown
+    let final_entries = ctx.rt.block_on(async {
+        let mut store = es(h.shutdown().await)?;
+        dump(&mut store, ns)
+    })?;
+    let mut ops = ra.clone();
+    ops.extend(rb.iter().cloned());
+    let mut done = vec![false; ops.len()];
+    if !linearizable(&model, &ops, &mut done, &model, &final_entries) {
+        o.fail(
+            "C14/not-linearizable",
+            format!(
+                "no order of the two clients' operations that respects real time makes the model produce these replies and final contents {}: A = {:?}; B = {:?}",
+                describe_all(&final_entries),
+                ra.iter().map(|r| (format!("{:?}", r.req), format!("{:?}", r.reply), r.invoke, r.response)).collect::<Vec<_>>(),
+                rb.iter().map(|r| (format!("{:?}", r.req), format!("{:?}", r.reply), r.invoke, r.response)).collect::<Vec<_>>()
+            ),
+        );
+    }
+    Ok(())
 }
